@@ -249,7 +249,12 @@ def check(pid, tier, seed, replay=None):
             return finish(res, prop, t0, [], None)
         missing = list(gen_info.get('missing_anchors') or [])
         # 2. build + audit
-        ok, out = lake_build(prop['lean_modules'] + ['driver'])
+        # the driver (model + spec oracle) is built first and on its own: it must follow the
+        # regenerated tables even when a property theorem no longer checks
+        dok, dout = lake_build(['driver'])
+        ok, out = lake_build(prop['lean_modules'])
+        if not dok and ok:
+            ok, out = False, dout
         theorems = []
         if not ok:
             # which module failed?  report as a broken proof obligation
@@ -291,7 +296,7 @@ def check(pid, tier, seed, replay=None):
             path = write_replay(pid, dict(kind='harness-build', output=out[-4000:], note='correspondence harness no longer compiles against /repo'))
             res.violations.append((path, ' no-failing-input-found'))
             return finish(res, prop, t0, theorems, gen_info)
-        driver_ok = os.path.exists(LEAN + '/.lake/build/bin/driver')
+        driver_ok = dok and os.path.exists(LEAN + '/.lake/build/bin/driver')
         total_eval = 0
         total_nt = 0
         samples = []
@@ -300,6 +305,8 @@ def check(pid, tier, seed, replay=None):
         traces = 0
         found_concrete = False
         seeds = [seed]
+        if proof_breaks and tier != 'thorough':
+            seeds = [seed, seed + 1, seed + 2]   # widen the search for a concrete failing input
         if tier == 'thorough':
             seeds = [seed + i for i in range(prop.get('thorough_seeds', 4))]
         for domain in prop['domains']:
